@@ -25,43 +25,52 @@ LEVEL = "other"
 GEN_UNITS = []
 COQ_TARGETS = ["Props/C05.vo", "Model/Harness.vo"]
 THEOREM_FILES = ["Props/C05.v"]
-COQ_IMPORTS = ("From Coq Require Import List Arith Bool.\n"
-               "From PV Require Import Model.C05Store Model.C05View.\nImport ListNotations.\n")
+COQ_IMPORTS = ("From Coq Require Import List Arith Bool ZArith.\n"
+               "From PV Require Import Model.C05Store Model.C05View Model.C05View2 Model.C05Frame.\nImport ListNotations.\n")
 RULE = ("one case per (public operation, parameter class, shape[, memory layout]): operations enumerated from dir() of tensor, sptensor, "
-        "ktensor, ttensor, tenmat, sptenmat, sumtensor, pyttb_utils and the pyttb top level (unlisted name = failing case); "
+        "ktensor, ttensor, tenmat, sptenmat, sumtensor, pyttb_utils, the pyttb top level and (wave 4) the optimizer classes of pyttb.gcp.optimizers "
+        "(unlisted name = failing case) plus an explicit list of cp_apr / gcp helper functions; "
         "shapes (2,3,4), (3,1,2), (2,2,2) (+ (3,4), (2,3,2,2), (4,1,3) and seeded random parameters in thorough); operands built fresh "
         "from python lists; every pure / in-place / no-copy row is repeated with all caller-chosen arrays (bare ndarrays, ktensor/ttensor "
-        "factors and weights, sptensor/sptenmat subs and vals) C-contiguous, F-contiguous and as a non-contiguous strided view; "
+        "factors and weights, sptensor/sptenmat subs and vals) C-contiguous, F-contiguous, as a non-contiguous strided view, as an F-contiguous "
+        "window that does not own its data (also tensor.data / tenmat.data), as a negative-stride view, and READ-ONLY (every array reachable from a "
+        "non-receiver operand has write=False: a write into an operand raises); "
         "parameter classes include both sides of data-dependent switches (already-symmetric receiver, all-ones mask, identity "
-        "permutation, singleton modes, nothing to squash, identical stored patterns, exact cancellation) and multi-step histories "
+        "permutation, singleton modes, nothing to squash, identical stored patterns, exact cancellation), multi-step histories "
         "(receiver produced by normalize/arrange/redistribute, by S-S / S+S / S*S / a region read / a copy=False construction; result "
-        "written through pyttb's own __setitem__; model of one run reused as the next run's init; optimizer object reused); "
+        "written through pyttb's own __setitem__; model of one run reused as the next run's init; optimizer object reused), the second application "
+        "of every in-place method to the same receiver, the second run of every algorithm on the very same data / init / optimizer objects (the "
+        "first run's result is an operand of the second), maxiters=0 / max_iters=0 / maxiter=0; rows of an open finding are split into the part "
+        "showing exactly the finding (operand buffer set, aspect) and sibling rows for everything else; "
         "non-trivial = the table entry returns or updates arrays (kind pure / inplace / nocopy, not scalar / property / attribute) and "
         "its operands hold at least one non-empty array; distinct = distinct (op, parameter class, shape, seed, layout); one "
-        "'model-tie' case per function transliterated in Model/C05View.v (sharing skeleton of the current source vs. the recorded one)")
+        "'model-tie' case per function transliterated in Model/C05View.v / C05View2.v (sharing skeleton of the current source vs. the recorded one)")
 CORRESPONDENCE_ONLY = ["disjointness of result and operand buffers per (operation, parameter class, layout): measured with "
-                       "np.shares_memory + cross-writes, not proved for all inputs, EXCEPT for the 19 return paths transliterated in "
-                       "Model/C05View.v (tensor.__init__/copy/permute/reshape/squeeze/__getitem__ region/to_tenmat, tenmat.__init__/copy/"
-                       "__getitem__, sptensor.__init__/copy/find, ktensor.__init__/copy/extract/tolist, khatrirao single matrix, "
-                       "to_memory_order) whose may-alias verdict is a theorem over the numpy view model; there the model itself is tied to "
-                       "pyttb by hand transliteration + sharing-skeleton check + agreement with the measured verdict on every generated row"]
+                       "np.shares_memory + cross-writes + read-only operands, not proved for all inputs, EXCEPT for the 26 return paths transliterated in "
+                       "Model/C05View.v and Model/C05View2.v (tensor.__init__/copy/permute/reshape/squeeze/__getitem__ region/to_tenmat, tenmat.__init__/copy/"
+                       "__getitem__/to_tensor/ctranspose/double, sptensor.__init__/copy/find, sptenmat.__init__/copy, ktensor.__init__/copy/extract/tolist, "
+                       "ttensor.__init__/copy, khatrirao single matrix, to_memory_order) whose may-alias verdict is a theorem over the numpy view model; there "
+                       "the model itself is tied to pyttb by hand transliteration + sharing-skeleton check + agreement with the measured verdict on every generated row",
+                       "cp_apr / gcp helper functions: an explicit list (tt_loglikelihood, calculate_pi, calculate_phi, vectorize_for_mu, fg.evaluate, fg_est.estimate, "
+                       "samplers.uniform/stratified/semistrat/nonzeros/zeros), not an enumeration; the other row-subproblem helpers of cp_apr only through cp_apr"]
 ASSUMPTIONS = [
     "np.shares_memory is exact on the small arrays used; the generic object walker (slots/__dict__/list/tuple/dict/scipy "
-    "sparse) reaches every buffer of an operand or result (cross-checked by the in-place sentinel writes in both directions)",
+    "sparse) reaches every buffer of an operand or result (cross-checked by the in-place sentinel writes in both directions and by the read-only variant)",
     "aliasing depends on the parameter class and memory layout, not on values other than the enumerated data-dependent switches: the "
     "enumerated classes (identity vs other permutation, same vs new shape, single vs several modes, copy flag, init given, negative "
-    "indices, C/F/strided operands, already-symmetric / all-ones / identical-pattern data ...) are representative",
-    "optimizer/solver objects passed to gcp_opt are tracked as operands in the 'optimizer-tracked' rows (every attribute reachable "
-    "from the object is snapshotted); that the stochastic solvers keep their run state in the object is known finding C05-N10",
-    "numpy view model (Model/C05View.v): non-negative strides; reshape(order='F') of an array that is neither F-contiguous nor of the "
+    "indices, C/F/strided/window/negative-stride/read-only operands, already-symmetric / all-ones / identical-pattern data, first vs second use ...) are representative",
+    "optimizer/solver objects passed to gcp_opt or used directly are tracked as operands (every attribute reachable "
+    "from the object is snapshotted); that the stochastic solvers keep their run state in exactly the attributes named by finding C05-N10 is known, any other change is reported",
+    "numpy view model (Model/C05View.v, C05View2.v): non-negative strides; reshape(order='F') of an array that is neither F-contiguous nor of the "
     "requested shape is modelled as a copy (numpy may still find a view); zero-size arrays are not special-cased; the model's verdict "
     "is compared with the measured one on every generated row of a transliterated operation",
 ]
-EXPLANATION = ("Level other: C05_frame/C05_copy/C05_inplace_footprint are proved for all stores and write histories; the numpy view model "
+EXPLANATION = ("Level other: C05_frame/C05_copy/C05_inplace_footprint are proved for all stores and write histories, C05_view_frame / C05_view_write_visible "
+               "for writes through views at cell granularity; the numpy view model "
                "(arrays = windows onto buffers) proves which numpy steps allocate and which alias, and from that the may-alias verdict "
-               "of 19 transliterated pyttb return paths for all arrays/parameters (C05_*_verdict). For every other operation the "
+               "of 26 transliterated pyttb return paths for all arrays/parameters (C05_*_verdict). For every other operation the "
                "hypothesis (result buffers disjoint from operand buffers) is measured here per operation x parameter class x layout "
-               "and each measured row is evaluated by the Coq checker row_check (operands unchanged, disjoint, no-copy constructions "
+               "and each measured row is evaluated by the Coq checker row_check, proved sound and complete (operands unchanged, disjoint, no-copy constructions "
                "share only the same-position buffer, and the cross-write observations agree with what the frame theorem predicts).")
 
 SHAPES = [(2, 3, 4), (3, 1, 2), (2, 2, 2)]
@@ -1465,12 +1474,31 @@ def public_surface():
         if n.startswith("_") or not callable(a) or getattr(a, "__module__", None) != PU.__name__ or isinstance(a, type):
             continue
         out.append(("utils", n))
+    # wave 4: the optimizer classes of pyttb.gcp.optimizers (every public method; the constructor only stores numbers)
+    import pyttb.gcp.optimizers as GO
+    for cn in W4.OPT_CLASSES:
+        for n in sorted(dir(getattr(GO, cn))):
+            if not n.startswith("_") and callable(getattr(getattr(GO, cn), n)) and not isinstance(getattr(getattr(GO, cn), n), type):
+                out.append(("gcpopt", f"{cn}.{n}"))
+    # helper functions named by the property's anchors (an explicit list, not an enumeration: see CORRESPONDENCE_ONLY)
+    import importlib
+    for (ns, name) in TABLE:
+        if ns == "helpers":
+            modn, fn = name.rsplit(".", 1)
+            try:
+                if callable(getattr(importlib.import_module("pyttb." + modn), fn)):
+                    out.append((ns, name))
+            except Exception:
+                pass
     return out
 
 
 def _has_operand_array(e, shp, sd):
+    import contextlib
+    import io
     try:
-        ops = e["build"](B(shp, sd))
+        with contextlib.redirect_stdout(io.StringIO()):      # (second-use rows run the first use inside build)
+            ops = e["build"](B(shp, sd))
         return any(a.size > 0 for _p, a in U.arrays_of(np, list(ops.items())))
     except Exception:
         return False
@@ -1573,6 +1601,8 @@ def run_impl(c):
             o = U.measure(np, build, lambda ops: _invoke(e["call"], ops, b), receiver=e["recv"])
     except Exception as ex:
         import traceback
+        if layout == "readonly" and "read-only" in str(ex) and e.get("aspects") is not None and "changed" not in e["aspects"]:
+            return {"skip": "a write into a read-only operand is evidence for the 'changed' aspect, judged by this row's sibling"}
         return {"exc": type(ex).__name__, "msg": str(ex)[:300], "tb": traceback.format_exc()[-600:], "layout": layout}
     if e.get("aspects") is not None:        # this row judges only some aspects (the others are judged by its sibling rows)
         if "changed" not in e["aspects"]:
@@ -1593,6 +1623,8 @@ def run_impl(c):
             Xk = ops3.get("X")
             if type(Xk).__name__ == "ktensor":
                 o["unitw"] = bool(np.array_equal(Xk.weights, np.ones(Xk.weights.shape)))
+            if type(Xk).__name__ == "tenmat":
+                o["tm"] = {"r": [int(x) for x in Xk.rindices], "c": [int(x) for x in Xk.cindices], "tshape": [int(x) for x in Xk.tshape]}
         except Exception:
             pass
     # no-copy rows: sharing beyond what the documentation of the construction permits
@@ -1615,10 +1647,18 @@ KIND_COQ = {"pure": "KPure", "scalar": "KPure", "property": "KPure", "inplace": 
 
 
 def coq_check(c, o):
+    if "skip" in o:
+        return None
     if c.op in ("unlisted", "stale") or "exc" in o:
         return "false"
     if c.op == "model-tie":
-        return "true" if o.get("tie") else "false"
+        # decided in Coq (audit A6): the current and the recorded skeleton, step by step, as CRC32 codes of the step texts
+        import zlib
+        if not isinstance(o.get("skeleton"), list) or not isinstance(o.get("expected"), list):
+            return "false"
+        zl = lambda steps: "[" + "; ".join(f"{zlib.crc32(st.encode())}%Z" for st in steps) + "]"
+        return (f"(let cur := {zl(o['skeleton'])} in let rec := {zl(o['expected'])} in "
+                f"(length cur =? length rec) && forallb (fun p => Z.eqb (fst p) (snd p)) (combine cur rec))")
     u, d, vr, vo, ex = bits(o)
     g = lambda x: "true" if x else "false"
     row = f"row_check (mkRow {KIND_COQ[o['kind']]} {g(u)} {g(d)} {g(vr)} {g(vo)} {g(ex)})"
@@ -1663,7 +1703,9 @@ def oracle(c, o):
 # ------------------------------------------------------------------------------------------------------------
 MODELLED = {"tensor.copy", "tensor.permute", "tensor.reshape", "tensor.squeeze", "tensor.__getitem__", "tensor.__init__",
             "tensor.to_tenmat", "tenmat.__getitem__", "sptensor.find", "ktensor.copy", "ktensor.__init__", "ktensor.extract",
-            "ktensor.tolist", "ttb.khatrirao", "sptensor.copy", "sptensor.__init__", "tenmat.copy", "tenmat.__init__"}
+            "ktensor.tolist", "ttb.khatrirao", "sptensor.copy", "sptensor.__init__", "tenmat.copy", "tenmat.__init__",
+            # wave 4 (Model/C05View2.v)
+            "tenmat.to_tensor", "tenmat.ctranspose", "tenmat.double", "ttensor.__init__", "ttensor.copy", "sptenmat.__init__", "sptenmat.copy"}
 
 
 def _gl(xs):
@@ -1743,7 +1785,7 @@ def model_verdicts(c, o):
                     r = [m for m in range(NX) if m not in cd]
                 dims = list(r) + list(cd)
                 rp, cp = math.prod(Xshape[m] for m in r), math.prod(Xshape[m] for m in cd)
-                cpy = "false" if pc == "copy=False" else "true"
+                cpy = "false" if pc.startswith("copy=False") else "true"
                 return one(f"tensor_to_tenmat {H} {X} {_gl(dims)} {rp} {cp} {cpy}")
             return []
         if c.op == "tensor.__init__":
@@ -1833,6 +1875,55 @@ def model_verdicts(c, o):
                 W = _arr(d, "w", 0)
                 return [(f"aliases ({W} :: {FL}) (snd (ktensor_init {H} {FL} {W} true))", _pairs(o, "result", None))]
             return []
+        if c.op in ("tenmat.to_tensor", "tenmat.ctranspose", "tenmat.double"):
+            if "X.data" not in d:
+                return []
+            D = _arr(d, "X.data", 0)
+            meas = _pairs(o, "result", "X.data")
+            if c.op == "tenmat.ctranspose":
+                if "twice" in pc:
+                    return []
+                return [(f"aliases [{D}] [snd (tenmat_ctranspose (h0 1) {D})]", meas)]
+            if c.op == "tenmat.double":
+                return [(f"aliases [{D}] [snd (tenmat_double (h0 1) {D})]", meas)]
+            tm = o.get("tm")
+            if not tm:
+                return []
+            order = tm["r"] + tm["c"]
+            pshape = [tm["tshape"][m] for m in order]
+            inv = sorted(range(len(order)), key=lambda i: order[i])
+            multi = "true" if len(order) > 1 else "false"
+            cpy = "false" if pc.startswith("copy=False") else "true"
+            return [(f"aliases [{D}] [snd (tenmat_to_tensor (h0 1) {D} {_gl(pshape)} {_gl(inv)} {_gl(tm['tshape'])} {multi} {cpy})]", meas)]
+        if c.op in ("ttensor.__init__", "ttensor.copy"):
+            pre = "X." if c.op == "ttensor.copy" else ""
+            ck = pre + "core.data"
+            fk = sorted(k for k in d if k.startswith(pre + ("factor_matrices[" if pre else "f[")))
+            if ck not in d or not fk:
+                return []
+            C = _arr(d, ck, 0)
+            F = [_arr(d, k, i + 1) for i, k in enumerate(fk)]
+            FL = "[" + "; ".join(F) + "]"
+            H = f"(h0 {len(F) + 1})"
+            if c.op == "ttensor.copy":
+                return [(f"aliases ({C} :: {FL}) (snd (ttensor_copy {H} {C} {FL}))", _pairs(o, "result", "X."))]
+            if pc == "copy=True":
+                return [(f"aliases ({C} :: {FL}) (snd (ttensor_init {H} {C} {FL} true))", _pairs(o, "result", None))]
+            if pc == "copy=False":
+                return [(f"aliases [{C}] [hd {C} (snd (ttensor_init {H} {C} {FL} false))]", _pairs(o, "result.core", "core")),
+                        (f"aliases {FL} (tl (snd (ttensor_init {H} {C} {FL} false)))", _pairs(o, "result.factor_matrices", "f"))]
+            return []
+        if c.op in ("sptenmat.__init__", "sptenmat.copy"):
+            ks, kv = ("X.subs", "X.vals") if c.op == "sptenmat.copy" else ("s", "v")
+            if ks not in d or kv not in d:
+                return []
+            S, Vv = _arr(d, ks, 0), _arr(d, kv, 1)
+            if c.op == "sptenmat.copy":
+                return [(f"aliases [{S}; {Vv}] (snd (sptenmat_copy (h0 2) {S} {Vv}))", _pairs(o, "result", "X."))]
+            if not pc.startswith("copy="):
+                return []
+            cpy = "false" if pc.startswith("copy=False") else "true"
+            return [(f"aliases [{S}; {Vv}] (snd (sptenmat_init (h0 2) {S} {Vv} {cpy}))", _pairs(o, "result", None))]
         if c.op == "ttb.khatrirao":
             if not pc.startswith("single-matrix"):
                 return []
@@ -1857,14 +1948,9 @@ def _trig(*pairs):
 # open (known) findings only. Repaired in /repo and therefore without trigger/witness (a regression is reported):
 # A-18 (2c488d8), A-19 (05ae91c), A-20 (c5cca04), A-21 (eaab1d3), A-22 (2271d4e), A-23 (1faa4aa), A-25 (e8f8528),
 # C05-N01 (9da7cbd), N02 (5de610a), N03 (a809e3d), N04 (d1f4c19), N05 (6294fd3), N06 (d564eea), N07 (a86915b), N09 (03905f9).
-FINDING_CLASSES = {
-    "A-24": [("ttb.gcp_opt", "lbfgsb,init=ktensor"), ("ttb.gcp_opt", "lbfgsb,init=ktensor,mask"), ("ttb.gcp_opt", "adam,init=ktensor,dense")],
-    "A-26": [("sumtensor.__add__", "tensor"), ("sumtensor.__add__", "ktensor"), ("sumtensor.__add__", "list"),
-             ("sumtensor.__radd__", "tensor"), ("sumtensor.__radd__", "sptensor")],
-    "C05-N08": [("ttb.cp_als", "echo,init=ktensor"), ("ttb.cp_apr", "echo,init=ktensor"), ("ttb.tucker_als", "echo,init=list")],
-    "C05-N10": [("ttb.gcp_opt", "sgd,optimizer-tracked,init=list"), ("ttb.gcp_opt", "adam,optimizer-tracked,init=list"),
-                ("ttb.gcp_opt", "adagrad,optimizer-tracked,init=list")],
-}
+# wave 4: the rows of every open finding are split (tools/props/c05_w4.py) into the part that shows exactly the finding — operand
+# buffer set and aspect ("changed" / "shared") — and sibling rows for everything else about the same call, which carry no trigger.
+FINDING_CLASSES = W4.FINDING_CLASSES
 TRIGGERS = {"c05_" + fid.replace("-", "_").lower(): _trig(*pairs) for fid, pairs in FINDING_CLASSES.items()}
 
 
